@@ -9,7 +9,9 @@ import ScpiVerif.Spec.ExprList
 import ScpiVerif.Lemmas.ExprList
 
 namespace ScpiVerif.Props.C19
-open ScpiVerif ScpiVerif.Lexer ScpiVerif.Expr ScpiVerif.Spec.ExprList
+open ScpiVerif ScpiVerif.Lexer ScpiVerif.Spec.ExprList
+-- `NumEntry` / `ChanEntry` below are the grammar's (Spec.ExprList); the model's result records of the same name stay qualified
+open ScpiVerif.Expr hiding NumEntry ChanEntry
 
 def tokText (body : Bytes) (t : Token) : Bytes := (body.drop t.ptr).take t.len.toNat
 
